@@ -591,6 +591,13 @@ class Failure:
 
 
 OPS_PER_CASE = 10
+_LAST = {}  # objects produced by the most recent evaluate(): handed to the independence oracle by judge()
+
+
+def _obs_full(unit):
+    def f(o):
+        return (unit.observe(o), int(o.packet_len), int(o.pdu_data_field_len))
+    return f
 
 
 def evaluate(unit, recipe, via="class", encode_side=True):
@@ -605,6 +612,7 @@ def evaluate(unit, recipe, via="class", encode_side=True):
     ref = unit._ref(cfg, p)
     hlen = R.header_len_of(cfg["idw"], cfg["seqw"])
     obj = None
+    _LAST.clear()
     try:
         obj = unit._build(cfg, p)
     except Exception as e:
@@ -612,9 +620,12 @@ def evaluate(unit, recipe, via="class", encode_side=True):
             return Failure("encode", kind + ".__init__", "exception", repr(e), ref)
     if obj is not None and encode_side:
         try:
-            raw = bytes(obj.pack())
+            raw_obj = obj.pack()
+            raw = bytes(raw_obj)
         except Exception as e:
             return Failure("encode", kind + ".pack", "exception", repr(e), ref)
+        _LAST["built"] = (kind + ".__init__", obj)
+        _LAST["packed"] = (kind + ".pack", raw_obj)
         if raw != ref:
             return Failure("encode", kind + ".pack", "octets", raw, ref)
         try:
@@ -630,6 +641,7 @@ def evaluate(unit, recipe, via="class", encode_side=True):
         return Failure("decode", subject, "refused", repr(e), None)
     if type(u) is not unit.cls():
         return Failure("decode", subject, "wrong-class", type(u).__name__, kind)
+    _LAST["decoded"] = (subject, u)
     exp = unit._exp(cfg, p)
     try:
         obs = unit.observe(u)
@@ -768,6 +780,17 @@ def judge(rec, pid, clause_prefix, unit, recipe, via="class", encode_side=True, 
     """evaluate one recipe, count it, and report a disagreement under a coarse signature
     '<pid>.<clause>/<subject>/<kind>[/<feature>...]' whose witness is the minimised recipe"""
     fail = (evaluator or evaluate)(unit, recipe, via, encode_side)
+    # independence oracle (mc/alias.py): results handed out for EARLIER recipes must not have changed
+    keeper = getattr(rec, "_pdu_keeper", None)
+    if keeper is None:
+        from mc.alias import Keeper
+        keeper = rec._pdu_keeper = Keeper(rec, pid, depth=6, live=True)  # the results of the last two recipes
+    case = {"kind": "pdu", "unit": unit.kind, "via": via, "enc": bool(encode_side), "recipe": hexed(recipe)}
+    keeper.recheck(case)
+    if fail is None and (evaluator is None or evaluator is evaluate):
+        for slot, (subject, o) in list(_LAST.items()):
+            keeper.hold(subject, o, bytes if slot == "packed" else _obs_full(unit), case)
+    _LAST.clear()
     if fail is None:
         return True
     labels = tuple(lab for _, lab in unit.features(recipe))
